@@ -3,5 +3,4 @@ CONSTANT PS = 3
 CONSTANT RICH = 0
 INIT Init
 NEXT Next
-INVARIANT Theorems
-INVARIANT Emit
+INVARIANT TheoremAndEmit
